@@ -494,24 +494,31 @@ func (e *Engine) info(fn *ssa.Function) *fnInfo {
 	return fi
 }
 
-// liveInteresting: for every block, the partitioning values that are still read at or after its entry. A value that
-// is dead (the materialised condition of a `switch { case a || b: }` arm after its branch, a flag after its last
-// test) must not keep otherwise equal states apart: n dead booleans are 2^n partitions of every later block.
+// liveInteresting: for every block, the partitioning values that still matter at or after its entry: the value is
+// read there, or a value computed from it is (the row `decl := table[i]` after the last use of `i`: the iterations
+// must stay apart while the row is in use). A value that is dead in this sense (the materialised condition of a
+// `switch { case a || b: }` arm after its branch, a flag after its last test) must not keep otherwise equal states
+// apart: n dead booleans are 2^n partitions of every later block.
 func liveInteresting(fn *ssa.Function, interesting []ssa.Value) map[*ssa.BasicBlock][]ssa.Value {
 	out := map[*ssa.BasicBlock][]ssa.Value{}
 	if len(fn.Blocks) == 0 {
 		return out
 	}
-	for _, v := range interesting {
+	rangeOf := map[ssa.Value]map[*ssa.BasicBlock]bool{}
+	liveRange := func(v ssa.Value) map[*ssa.BasicBlock]bool {
+		if lr, ok := rangeOf[v]; ok {
+			return lr
+		}
+		live := map[*ssa.BasicBlock]bool{}
+		rangeOf[v] = live
 		def := fn.Blocks[0]
 		if in, ok := v.(ssa.Instruction); ok {
 			def = in.Block()
 		}
 		refs := v.Referrers()
 		if refs == nil {
-			continue
+			return live
 		}
-		live := map[*ssa.BasicBlock]bool{}
 		var markIn func(b *ssa.BasicBlock)
 		markIn = func(b *ssa.BasicBlock) {
 			if live[b] {
@@ -538,8 +545,34 @@ func liveInteresting(fn *ssa.Function, interesting []ssa.Value) map[*ssa.BasicBl
 				markIn(r.Block())
 			}
 		}
+		return live
+	}
+	for _, v := range interesting {
+		// the values computed from v
+		closure := map[ssa.Value]bool{v: true}
+		work := []ssa.Value{v}
+		for len(work) > 0 && len(closure) < 400 {
+			w := work[len(work)-1]
+			work = work[:len(work)-1]
+			refs := w.Referrers()
+			if refs == nil {
+				continue
+			}
+			for _, r := range *refs {
+				if rv, ok := r.(ssa.Value); ok && !closure[rv] {
+					closure[rv] = true
+					work = append(work, rv)
+				}
+			}
+		}
+		live := map[*ssa.BasicBlock]bool{}
+		for w := range closure {
+			for b := range liveRange(w) {
+				live[b] = true
+			}
+		}
 		for _, b := range fn.Blocks {
-			if live[b] {
+			if live[b] || len(closure) >= 400 {
 				out[b] = append(out[b], v)
 			}
 		}
